@@ -135,7 +135,8 @@ def trace_update(opt, params, axis_env=None):
   except Exception as ex:
     raise RealCodeError(ex, 'init') from ex
   try:
-    tr = Traced(lambda g, s, p: opt.update(g, s, p), (params, state, params), axis_env=axis_env, name='a')
+    tr = Traced(lambda g, s, p: opt.update(g, s, p), (params, state, params), axis_env=axis_env, name='a',
+                out_like=(params, state) if axis_env else None)
   except Exception as ex:
     raise RealCodeError(ex, 'update') from ex
   return tr, state
